@@ -84,12 +84,12 @@ class Ctx:
         f = self.program.func(qualname)
         return f
 
-    def paths(self, qualname: str, inline: Sequence[str] = (), **kw: Any) -> List[Path]:
-        k = (qualname, tuple(sorted(inline)), tuple(sorted(kw.items())))
+    def paths(self, qualname: str, inline: Sequence[str] = (), inline_helpers: bool = True, **kw: Any) -> List[Path]:
+        k = (qualname, tuple(sorted(inline)), inline_helpers, tuple(sorted(kw.items())))
         if k not in self._paths:
             f = self.func(qualname)
             names = set(inline)
-            ev = Evaluator(self.cg, f, inline=(lambda g: g.qualname in names or g.name in names), **kw)
+            ev = Evaluator(self.cg, f, inline=(lambda g: g.qualname in names or g.name in names or (inline_helpers and is_helper(g))), **kw)
             self._paths[k] = ev.run()
         ps = self._paths[k]
         if qualname not in self._funcs_seen:
@@ -130,6 +130,49 @@ class Ctx:
         """An anchor the rule needs; its absence is an analysis failure, not a violation."""
         if not cond:
             raise AnalysisError(f"{self.current_rule}: {what}")
+
+
+_ANCHOR_NAMES: Optional[Set[str]] = None
+
+
+def anchor_names() -> Set[str]:
+    """Every identifier-like string literal in the rule sources.  A package function whose
+    name (or Class.name) occurs there is an *anchor*: rules look for calls to it, so it is
+    never inlined.  Any other package function reached from an analysed function is a plain
+    helper and is inlined, which makes the verdict independent of how a maintainer splits
+    code into private helpers."""
+    global _ANCHOR_NAMES
+    if _ANCHOR_NAMES is None:
+        import glob
+        import os
+        import re
+
+        names: Set[str] = set()
+        here = os.path.dirname(os.path.abspath(__file__))
+        for fn in glob.glob(os.path.join(here, "rules", "*.py")) + [os.path.join(here, "kit.py")]:
+            try:
+                tree = ast.parse(open(fn).read())
+            except SyntaxError:
+                continue
+            for n in ast.walk(tree):
+                if isinstance(n, ast.Constant) and isinstance(n.value, str):
+                    for m in re.findall(r"[A-Za-z_][A-Za-z_0-9]*", n.value):
+                        names.add(m)
+        _ANCHOR_NAMES = names
+    return _ANCHOR_NAMES
+
+
+def is_helper(g: FuncInfo) -> bool:
+    """a non-anchor package function that may be inlined into its callers"""
+    if g.name.startswith("__") or g.is_abstract or g.outer is not None:
+        return False
+    if g.name in anchor_names():
+        return False
+    body = [st for st in g.node.body if not (isinstance(st, ast.Expr) and isinstance(st.value, ast.Constant))]
+    if not body or all(isinstance(st, ast.Pass) for st in body):
+        return False  # an empty method is an extension point for user code, not a helper
+    n = sum(1 for _ in ast.walk(g.node))
+    return n <= 900
 
 
 def count_paths(ps: List[Path]) -> int:
@@ -202,6 +245,92 @@ def alloc_literal(path: Path, symt: Optional[Term]) -> Optional[Term]:
     if symt[0] in ("list", "dict", "set", "tuple"):
         return symt
     return None
+
+
+def forall_pred(c: Term, pol: bool) -> Optional[Tuple[Term, Tuple]]:
+    """If the decision (c, pol) says `for every element of a sequence, P holds`, return
+    (P, generators).  Decisions are in the canonical any-form: any(<seq not P for ..>) decided false."""
+    c = strip_ver(c)
+    if c[0] == "call" and c[1] == ("name", "any") and len(c[2]) == 1 and c[2][0][0] == "comp" and not pol:
+        comp = c[2][0]
+        elt = comp[2]
+        pred = elt[1] if elt[0] == "not" else ("not", elt)
+        return pred, comp[3]
+    return None
+
+
+def seq_value(path: Path, symt: Optional[Term], outer: Sequence[Path] = ()) -> Optional[Term]:
+    """Contents of a list that is built on this path, as a canonical comprehension term:
+    either it was created from a literal/comprehension, or it starts empty and is filled by
+    append/extend inside (nested) for-loops.  None when the construction is not of that shape."""
+    from .terms import normalise
+
+    if symt is None:
+        return None
+    if symt[0] == "comp":
+        return normalise(strip_ver(symt))
+    lit = None
+    home = path
+    for cand in [path] + list(outer):
+        for e in cand.events:  # the path whose own statements created the list
+            if e.kind == "note" and e.data.get("what") == "alloc" and e.data.get("sym") == symt:
+                lit, home = e.data["literal"], cand
+                break
+        if lit is not None:
+            break
+    if lit is None:
+        lit = alloc_literal(path, symt)
+    if lit is None or lit[0] != "list":
+        n = normalise(strip_ver(symt))
+        return n if n[0] == "comp" else None
+    if len(lit[1]) != 0:
+        return None
+    contribs: List[Term] = []
+
+    def walk(p: Path, gens: Tuple) -> bool:
+        for e in p.events:
+            if e.kind == "call" and e.recv == symt and e.name in ("append", "extend") and e.args:
+                conds = tuple((strip_ver(c) if pol else ("not", strip_ver(c))) for c, pol, _ in p.conds)
+                if not gens:
+                    return False
+                g2 = gens[:-1] + ((gens[-1][0], gens[-1][1], gens[-1][2] + conds),)
+                if e.name == "append":
+                    contribs.append(("comp", "seq", strip_ver(e.args[0]), g2))
+                else:
+                    contribs.append(("comp", "seq", ("bound", "_flat"), g2 + ((("_flat",), strip_ver(e.args[0]), ()),)))
+            elif e.kind == "call" and e.data.get("mutates") == symt:
+                return False
+            elif e.kind == "loop":
+                if e.loopkind != "for" or e.iter is None:
+                    if any(x.kind == "call" and x.recv == symt for bp in e.paths for x in bp.walk_events(True)):
+                        return False
+                    continue
+                conds = tuple((strip_ver(c) if pol else ("not", strip_ver(c))) for c, pol, _ in p.conds) if gens else ()
+                base = gens
+                if gens and conds:
+                    base = gens[:-1] + ((gens[-1][0], gens[-1][1], gens[-1][2] + conds),)
+                for bp in e.paths:
+                    if bp.exit[0] == "raise":
+                        continue
+                    if not walk(bp, base + ((tuple(e.target), strip_ver(e.iter), ()),)):
+                        return False
+        return True
+
+    if not walk(home, ()):
+        return None
+    if len(contribs) != 1:
+        return None
+    # loop elements become bound variables
+    comp = contribs[0]
+
+    def bind(t: Term) -> Term:
+        if t[0] == "sym" and "∈" in t[1]:
+            return ("bound", t[1].split("∈")[0])
+        from .terms import map_children
+
+        return map_children(t, bind)
+
+    return normalise(bind(comp))
 
 
 def is_normal(p: Path) -> bool:
